@@ -29,7 +29,7 @@ RULE = ("case = 2..6 operations from {get, multiget, getnext, walk, bulkwalk, ta
         "dropped; distinct = the schedule actually taken")
 ASSUMPTIONS = [
     "asyncio is cooperative: the sender seam is the only yield point, so release orders at that seam are the complete schedule space (threads are out of scope)",
-    "SET targets live in a subtree no other operation reads, so 'alone' is well defined",
+    "SET targets live in a subtree no other operation reads, so 'alone' is well defined; the one exception is the pair getshared / setget, where the racing read may return the old or the new value and the read-back after the confirmed write must return the new one",
     "dropped datagrams stay below the default retry budget, so every operation succeeds when run alone",
 ]
 EXHAUSTIVE = lambda tier: ("all release/drop schedules of every pair%s from the fixed operation set, v2c and SNMPv3" % (
@@ -40,15 +40,19 @@ SC = (1, 3, 6, 1, 4, 1, 88, 1, 0)
 PRIV = (1, 3, 6, 1, 4, 1, 88, 9)
 
 
+SHARED = (1, 3, 6, 1, 4, 1, 88, 9, 77, 0)     # written by "setget", read by "getshared"
+
+
 def make_db():
     db = {SC: (vber.T_OCTETS, b"scalar"), (1, 3, 6, 1, 4, 1, 88, 3, 0): (vber.T_INT, b"\x05")}
     for c in (1, 2):
         for r in (1, 2, 3):
             db[TBL + (c, r)] = (vber.T_INT, bytes([16 * c + r]))
+    db[SHARED] = (vber.T_OCTETS, b"initial")
     return db
 
 
-OPNAMES = ["get", "multiget", "getnext", "walk", "bulkwalk", "table", "set", "geterr"]
+OPNAMES = ["get", "multiget", "getnext", "walk", "bulkwalk", "table", "set", "geterr", "setget", "getshared"]
 _opid = contextvars.ContextVar("opid", default=None)
 
 
@@ -69,6 +73,12 @@ async def do_op(client, name, k):
         return sorted((r["0"], sorted((c, vworld.observe(v)) for c, v in r.items() if c != "0")) for r in rows)
     if name == "set":
         return vworld.observe(await client.set(O(PRIV + (k, 0)), vworld.make_value(vber.T_OCTETS, b"by-op-%d" % k)))
+    if name == "setget":
+        # write, then read back what was written: whatever else is in flight, the read comes after the confirmed write
+        await client.set(O(SHARED), vworld.make_value(vber.T_OCTETS, b"fresh"))
+        return vworld.observe(await client.get(O(SHARED)))
+    if name == "getshared":
+        return vworld.observe(await client.get(O(SHARED)))
     if name == "geterr":
         # the agent answers this one with error-status 2, error-index 1 and NO bindings (see _refuse)
         return vworld.observe(await client.get(O(PRIV + (k, 99, 0))))
@@ -309,6 +319,8 @@ def judge(case, outcomes, info) -> Result:
             continue
         if out is None:
             return Result("%s: operation %d never finished" % (head, i), nontrivial, classes, key=key)
+        if ops[i][1] == "getshared" and out == ("ok", ("OctetString", b"fresh")) and any(n == "setget" for _, n in ops):
+            continue      # a read racing with the write of "setget" may see either value
         if out != a:
             if out[0] == "exc" and out[1] == "AuthenticationError":
                 # possibly the cross-property known finding: judged by the trigger on any response of this run
